@@ -709,6 +709,17 @@ func ruleHybridAtomicAdd(r *Run, k *hybridKind) {
 				}
 			}
 		}
+		// the rollback written as a local closure: free variables are bound to this function's values
+		if mc, ok := call.Call.Value.(*ssa.MakeClosure); ok {
+			if g, ok := mc.Fn.(*ssa.Function); ok && g.Parent() == fn {
+				c2 := NewCanon(w)
+				for _, rm := range invokesOf(g, "Remove") {
+					if t, ok := translatePath(c, c2.S(rm.Call.Value), nil, mc.Bindings); ok && t == idx {
+						return true
+					}
+				}
+			}
+		}
 		return false
 	}
 	for i, add := range adds {
@@ -752,8 +763,15 @@ func ruleHybridAtomicAdd(r *Run, k *hybridKind) {
 		g := staticCallee(call.Common())
 		r.Analysed(w.Name(g))
 		c2 := NewCanon(w)
+		var bindings []ssa.Value
+		if mc, ok := call.Common().Value.(*ssa.MakeClosure); ok {
+			bindings = mc.Bindings
+		}
 		for _, rm := range invokesOf(g, "Remove") {
 			idx := c2.S(rm.Call.Value)
+			if t, ok := translatePath(c, idx, call.Common().Args, bindings); ok {
+				idx = t
+			}
 			// guard flag: field of a parameter
 			flag := ""
 			for b := rm.Block(); b != nil && flag == ""; b = b.Idom() {
@@ -763,7 +781,7 @@ func ruleHybridAtomicAdd(r *Run, k *hybridKind) {
 				}
 				if iff, ok := d.Instrs[len(d.Instrs)-1].(*ssa.If); ok && (d.Succs[0] == b || d.Succs[0].Dominates(b)) {
 					s := c2.S(iff.Cond)
-					if i := strings.LastIndex(s, "."); i >= 0 && strings.HasPrefix(s, "P") {
+					if i := strings.LastIndex(s, "."); i >= 0 && (strings.HasPrefix(s, "P") || strings.HasPrefix(s, "FV")) {
 						flag = s[i+1:]
 					}
 				}
@@ -894,25 +912,57 @@ func ruleMetaAtomicAdd(r *Run, rule string, k *metaKind) {
 		if !reachable {
 			continue
 		}
-		// acceptable only as the default of the apply type switch, made infeasible by the validation
-		inDefault := lastApply != nil && lastApply.Block().Dominates(ret.Block())
+		// acceptable only as the default of the apply type switch, made infeasible by the validation: on every path from
+		// the first mutation to this return with a non-nil error, the last iteration took the "no match" branch of every
+		// handled-type test it met (and met at least one)
+		inDefault := lastApply != nil
 		if inDefault {
-			// not inside a handler: no apply type-assert's true successor dominates it
-			allInstrs(fn, func(in ssa.Instruction) {
-				ta, ok := in.(*ssa.TypeAssert)
-				if !ok || !ta.CommaOk || !domInstr(first, ta) {
-					return
+			paths, trunc := enumPaths(first.Block(), walkCfg{MaxVisits: 2, MaxPaths: 20000})
+			if trunc {
+				inDefault = false
+			}
+			isApplyTest := func(cond ssa.Value) bool {
+				ex, ok := cond.(*ssa.Extract)
+				if !ok || ex.Index != 1 {
+					return false
 				}
-				for _, ref := range *ta.Referrers() {
-					if ex, ok := ref.(*ssa.Extract); ok && ex.Index == 1 {
-						for _, r2 := range *ex.Referrers() {
-							if iff, ok := r2.(*ssa.If); ok && iff.Block().Succs[0].Dominates(ret.Block()) && len(iff.Block().Succs[0].Preds) == 1 {
-								inDefault = false
+				ta, ok := ex.Tuple.(*ssa.TypeAssert)
+				return ok && ta.CommaOk && domInstr(first, ta)
+			}
+			seenPath := false
+			for _, p := range paths {
+				if p.End != EndReturn || p.Ret != ret || !p.Feasible() || pathErrClass(p) == ErrNil {
+					continue
+				}
+				seenPath = true
+				// decisions of the last pass through the apply loop
+				from := 0
+				for _, l := range loopsOf(fn) {
+					if l.Blocks[lastApply.Block()] {
+						for j, b := range p.Blocks {
+							if b == l.Header {
+								from = j
 							}
 						}
 					}
 				}
-			})
+				tests, matched := 0, 0
+				for _, d := range p.Decisions {
+					if d.At < from || !isApplyTest(d.Cond) {
+						continue
+					}
+					tests++
+					if d.Taken {
+						matched++
+					}
+				}
+				if tests == 0 || matched > 0 {
+					inDefault = false
+				}
+			}
+			if !seenPath {
+				inDefault = false
+			}
 		}
 		if !inDefault {
 			bad = append(bad, "error return at "+w.InstrPos(ret)+" is reachable after the index was mutated at "+w.InstrPos(first))
